@@ -255,25 +255,29 @@ CSV_VARIANT_VALUES = [('qall', True), ('delim', '\t'), ('blank', True), ('cr', T
 
 def csv_lines(names, rows, header, v):
     d = v['delim']
+    q = v.get('q', '"')             # quote character (a constructor option of the reader in the re-use family)
 
     def field(s):
         s = '' if s is None else s
-        if v['qall'] or any(c in s for c in ('"', '\r', '\n', d)): return '"' + s.replace('"', '""') + '"'
+        if v['qall'] or any(c in s for c in (q, '\r', '\n', d)): return q + s.replace(q, q + q) + q
         return s
 
     def line(fields):
         out = d.join(field(f) for f in fields)
-        return '""' if out == '' else out          # a record of one empty field is written "" (csv.writer, pandas, R)
+        return q + q if out == '' else out          # a record of one empty field is written "" (csv.writer, pandas, R)
     lines = ([line(names)] if header else []) + [line(r) for r in rows]
     if v['blank']: lines = [l for x in lines for l in (x, '')]
     if v['cr']: lines = [l + '\r\n' for l in lines]
     return lines
 
 
+def csv_rows_observed(rows, header):
+    return [(list(r), dict(r.headers) if header else None, [r[i] for i in range(len(r))], {h: r[h] for h in r.headers} if header else None) for r in rows]
+
+
 def csv_observe(lines, header, v):
     kw = {'delimiter': '\t'} if v['delim'] == '\t' else {}
-    rows = list(CsvReader(has_header=header, **kw).filter(iter(lines)))
-    return [(list(r), dict(r.headers) if header else None, [r[i] for i in range(len(r))], {h: r[h] for h in r.headers} if header else None) for r in rows]
+    return csv_rows_observed(list(CsvReader(has_header=header, **kw).filter(iter(lines))), header)
 
 
 def csv_compare(names, rows, header, got):
